@@ -34,7 +34,7 @@ RULE = ('cases = (recording, configuration) x runs (nprocesses, executor, task o
         'the boundaries of the schedule: ns = P*NBATCH (+0, 1, P-1), CHUNK_SIZE a multiple of NBATCH, a worker stop rule hit with equality, '
         'shortest / just complete last batch, single batch down to ns = SAMPLES_TAPER, NBATCH barely above two tapers.  Every recording is run '
         'with 1 worker and with the largest admissible worker count (ns >= P*NBATCH, P <= 8) and others in between, x {append to a first '
-        'run, ns2add, k-filter or CAR, whitening none / scalar / identity / dense / penta-diagonal, per-channel AP gains uniform / two halves / '
+        'run, a destination that already holds a LONGER unrelated output (stale out.bin / ap_rms.bin / ap_time.bin; non-append runs must give what they give in an empty directory), ns2add, k-filter or CAR, whitening none / scalar / identity / dense / penta-diagonal, per-channel AP gains uniform / two halves / '
         'all mixed (imro table), nc_out without sync, .cbin input, channel rejection (thorough)}.  Independently of the values the FORM of the '
         'call is drawn (tags form:*): output dtype int16 / float32 / int32 / float64 (row bytes of the model = nc_out x item size of the OUTPUT '
         'dtype), sr_file and output_file as str or Path, output_qc_path given, reader_kwargs given, butter_kwargs default / default given '
@@ -372,6 +372,16 @@ def run_destripe(src_file, out_dir, N, P, mode='seq', order=None, trace=False, f
     return res
 
 
+def _plant_stale(d, rows, rb, seed=0):
+    """A destination that already holds the (longer) outputs of an earlier, unrelated run: out.bin and the two scratch QC files
+    with junk content.  A non-append run must give exactly what it gives in an empty directory."""
+    r = np.random.default_rng(seed + 977)
+    d = Path(d)
+    r.integers(0, 255, size=int(rows) * int(rb), dtype=np.uint8).tofile(d / 'out.bin')
+    r.random(size=(40, NCV)).astype(np.float32).tofile(d / 'ap_rms.bin')
+    r.random(size=40).astype(np.float32).tofile(d / 'ap_time.bin')
+
+
 def read_outputs(out_dir, form=None):
     d = Path(out_dir)
     o = {}
@@ -692,9 +702,11 @@ def run_case(payload):
                 base[k] = case[k]
         if case.get('append'):
             base['append'] = case['append']
+        if case.get('stale'):
+            base['stale'] = case['stale']
         base['form'] = {k: v for k, v in form.items() if v != FORM_DEFAULT[k]}
         ctag = tuple(f'form:{k}={v}' for k, v in sorted(form.items())) + ('kfilt' if case['kfilter'] else 'car', 'wrot=' + case['wrot'], 'ns2add>0' if case['ns2add'] else 'ns2add=0',
-                'append' if case.get('append') else 'fresh', 'cbin' if case.get('cbin') else 'bin',
+                'append' if case.get('append') else ('stale-destination' if case.get('stale') else 'fresh'), 'cbin' if case.get('cbin') else 'bin',
                 'reject' if case.get('reject') else 'noreject', 'nc_out=' + str(nc_out), 'kind=' + case.get('kind', '?'),
                 'gains=' + (case.get('gains') or 'uniform'))
         offs = _offsets(case, T)
@@ -717,6 +729,8 @@ def run_case(payload):
                 shutil.copytree(pre_dir, d)
             else:
                 d.mkdir()
+                if case.get('stale'):       # destination already holding a longer, unrelated output (non-append runs only)
+                    _plant_stale(d, ns + case['ns2add'] + int(case['stale']), rb, seed)
             return d
 
         bp = BatchProcessor(src, N, T, k_filter=kw['k_filter'], wrot=kw.get('wrot'), nc_out=case.get('nc_out'),
@@ -933,6 +947,8 @@ def _in_domain_case(rng, T, kind, Pt, quick):
         a_N = int(rng.choice([N, 2 * T + 700]))
         a_P = int(rng.choice([1, 2]))
         case['append'] = {'ns': int(a_P * a_N + rng.integers(0, 900)), 'N': a_N, 'P': a_P, 'ns2add': int(rng.choice([0, 3]))}
+    if not case.get('append') and rng.random() < 0.3:
+        case['stale'] = int(rng.choice([1, 500, N, 3 * N]))       # rows the existing destination is longer by
     if rng.random() < 0.12:
         case['nc_out'] = NCV
     if rng.random() < 0.12:
@@ -1121,6 +1137,8 @@ def oracle(inp):
         src, D = make_recording(tmp, 'rec', ns, case['seed'], sat=inp.get('sat') or (), gains=inp.get('gains'))
         # 1 worker, fresh file: the reference of "independent of the worker count"
         d1 = tmp / 'p1'; d1.mkdir()
+        if inp.get('stale') and not inp.get('append'):
+            _plant_stale(d1, ns + case['ns2add'] + int(inp['stale']), rb, case['seed'])
         r = run_destripe(src, d1, N, 1, mode='seq', form=form, **kw)
         if r['error']:
             return f'1 worker: raised {r["error"]}'
@@ -1182,6 +1200,8 @@ def oracle(inp):
                 shutil.copytree(tmp / 'pre', d)
             else:
                 d.mkdir()
+                if inp.get('stale'):
+                    _plant_stale(d, ns + case['ns2add'] + int(inp['stale']), rb, case['seed'])
             r = run_destripe(src, d, N, P, mode='seq', form=form, order=order, **({**kw, 'append': True} if pre is not None else kw))
             who = f'{P} workers (task order {order})' + (' appending' if pre is not None else '')
             if r['error']:
@@ -1218,7 +1238,7 @@ def _oracle_safe(inp):
 
 
 def _size(inp):
-    return (inp['ns'], inp['P'], int(bool(inp.get('append'))) + int(bool(inp.get('ns2add'))) + int(inp.get('wrot', 'none') != 'none')
+    return (inp['ns'], inp['P'], int(bool(inp.get('stale'))) + int(bool(inp.get('append'))) + int(bool(inp.get('ns2add'))) + int(inp.get('wrot', 'none') != 'none')
             + int(bool(inp.get('kfilter'))) + int(bool(inp.get('sat'))) + int(bool(inp.get('nc_out')))
             + int((inp.get('gains') or 'uniform') != 'uniform') + len(inp.get('form') or {}))
 
@@ -1232,6 +1252,8 @@ def _grid(T):
         d.update(k)
         return d
     g.append(mk(2 * N1, N1, 2))
+    g.append(mk(2 * N1, N1, 2, stale=N1))
+    g.append(mk(T, N2, 1, stale=1, ns2add=3))
     g.append(mk(T, N2, 1))
     g.append(mk(T, N2, 1, wrot='penta', gains='halves'))
     g.append(mk(2 * N1, N1, 2, wrot='matrix', gains='mixed'))
@@ -1259,7 +1281,7 @@ def _inputs_from_mismatches(ctx, T):
         P = int(c.get('P', 1))
         inp = {'ns': int(c['ns']), 'N': int(c['N']), 'P': P, 'seed': int(c.get('seed', 0)), 'T': T, 'kfilter': int(c.get('kfilter', 0)),
                'wrot': c.get('wrot', 'none'), 'gains': c.get('gains') or 'uniform', 'ns2add': int(c.get('ns2add', 0)), 'sat': c.get('sat') or [],
-               'append': c.get('append'), 'nc_out': c.get('nc_out'), 'form': c.get('form') or {}}
+               'append': c.get('append'), 'nc_out': c.get('nc_out'), 'form': c.get('form') or {}, 'stale': c.get('stale')}
         if inp['ns'] < P * inp['N'] and not (P == 1 and inp['ns'] >= T):
             continue
         key = json.dumps(inp, sort_keys=True)
@@ -1289,7 +1311,7 @@ def search(ctx, reasons):
         # shrink: drop options one at a time, then fewer workers
         for _ in range(4):
             trials = []
-            for k, v in (('append', None), ('ns2add', 0), ('wrot', 'none'), ('kfilter', 0), ('sat', []), ('nc_out', None), ('gains', 'uniform')):
+            for k, v in (('append', None), ('stale', None), ('ns2add', 0), ('wrot', 'none'), ('kfilter', 0), ('sat', []), ('nc_out', None), ('gains', 'uniform')):
                 if inp.get(k) not in (v, None, 0, 'none', []):
                     trials.append({**inp, k: v})
             if len(inp.get('form') or {}) > 1:
